@@ -24,13 +24,18 @@ RULE = ('case = (configuration in ticks; event list) run against the real AsyncB
         'value / an Exception for an unanswered key, raise, return} for retention_timeout 0, 5 (< batch_timeout) and 9 '
         '(> batch_timeout); random layer: up to 10 calls over 1..3 keys, retention in {0, 7, 40, 4000} ticks, gaps on a grid '
         'around retention_timeout, batch_timeout and every armed deadline.  non-trivial = some key is requested at least '
-        'twice and somebody is answered (Case_C11.nontrivial, inside Coq); distinct = distinct (case, trace) pairs')
+        'twice and somebody is answered (Case_C11.nontrivial, inside Coq); distinct = distinct (case, trace) pairs'
+        ' Chain events (one task making m+1 sequential calls, each in the continuation of the previous answer — the only way to call in the very loop iteration in which the key is released) are part of the corpus, of the exhaustive alphabet (retention 0 / one slot) and of the random layer.')
 EXHAUSTIVE_NOTE = ('all event lists of length <= D (D=5 quick, 6 thorough; one less for concurrency 2) with <= 4 calls over the alphabet in the rule, for '
                    'retention_timeout in {0, 5, 9} ticks, batch_timeout 6, max_batch_size 2, concurrency 1..2')
 ASSUMPTIONS = D.ASSUMPTIONS
 TRUSTED = D.TRUSTED
 ALLOWED_AXIOMS = []
-LEVEL_NOTE = D.LEVEL_NOTE
+LEVEL_NOTE = ('trusted: Coq kernel + vm_compute; asyncio primitives (Queue, wait_for, FIFO Semaphore, shield, Future '
+    'done-callbacks, call_later, task wake-up order) are modelled in Batcher.v and validated only by the '
+    'correspondence runs; harness/vloop.py, harness/batcher_drv.py, coq/theories/Case_Batcher.v (agree + monitors).  '
+    'Monitor soundness is proved only for the simple conjuncts (monitor_sound_partial); the other conjuncts are tied '
+    'to the theorems through agree (model trace = observed trace) on every case')
 TECHNIQUE = D.TECHNIQUE
 
 run_impl = D.run_impl
@@ -137,10 +142,15 @@ def gen_search(tier, seed):
 
 
 LEVEL_TEXT = ('On the macro-step model of AsyncBackgroundBatcher (coq/theories/Batcher.v) props/C11.v proves for ALL event '
-              'lists and configurations: at most one pending future per key exists in the open, queued and running batches '
-              '(so no batch carries a key twice); the retention cache maps a key to its future exactly while that future is '
-              'pending or completed less than retention_timeout ago; a call that finds the key adds no item and is answered '
-              'with that future\'s outcome, a call after the window creates a new item whose batch starts after its arrival; '
-              'every retention timer was armed for the future currently cached under its key, so a timer never evicts a '
-              'younger entry and its pop always finds the key.  Tied to /repo by differential correspondence under the '
-              'virtual-time loop; the monitor ok_C11 judges the observed trace independently of the model.')
+    'lists and configurations (any retention_timeout incl. 0): no_dup_key_in_batch; pending_key_unique — at most one '
+    'pending request per key, it is the one the retention cache maps the key to; retention_window — the cache maps k '
+    'to f exactly while f is pending or was completed at t with t <= now < t + retention_timeout, every pending or '
+    'recently completed request is in the cache; shared_in_window — a call that finds its key adds no request and is '
+    "answered with that future's outcome (at once if it is done); fresh_after_window + fresh_call_creates_request + "
+    'batch_starts_after_arrival — once all requests for k completed at least retention_timeout ago the key is '
+    'forgotten, the call creates a new request whose batch starts at or after the call; ret_timer_sound — every armed '
+    'timer was armed for the future currently cached under its key, retention_timeout after its completion (no stale '
+    'timer evicts a younger entry, the pop finds the key).  Tied to /repo by differential correspondence under the '
+    'virtual-time loop, incl. tasks that call again in the continuation of their answer; the monitor ok_C11 judges '
+    'the observed trace independently of the model (monitor_sound_partial: acceptance implies no batch carries a key '
+    'twice).')
